@@ -103,6 +103,42 @@ def gen_cond(rng):
     return g.bool_expr(2)
 
 
+def index_vars_expr(e):
+    out = set()
+    if e[0] == "bin" and e[1] == "sub":
+        out |= lang.expr_vars(e[3])
+    for c in e[1:]:
+        if isinstance(c, list) and c and isinstance(c[0], str) and c[0] in (
+                "int", "bool", "none", "var", "not", "if", "bin", "nary", "call"):
+            out |= index_vars_expr(c)
+        elif isinstance(c, list):
+            for d in c:
+                if isinstance(d, list) and d and isinstance(d[0], str) and d[0] in (
+                        "int", "bool", "none", "var", "not", "if", "bin", "nary", "call"):
+                    out |= index_vars_expr(d)
+                elif isinstance(d, list) and len(d) == 2 and isinstance(d[1], list):
+                    out |= index_vars_expr(d[1])
+    return out
+
+
+def index_vars(k):
+    out = set()
+    if k[0] == "assign":
+        if k[2] is not None:
+            out |= lang.expr_vars(k[2]) | index_vars_expr(k[2])
+        out |= index_vars_expr(k[3])
+        for _, lo, hi in k[4]:
+            out |= index_vars_expr(lo) | index_vars_expr(hi)
+    elif k[0] == "call":
+        for e in k[3]:
+            out |= index_vars_expr(e)
+        for _, e in k[4]:
+            out |= index_vars_expr(e)
+    elif k[0] == "yield":
+        out |= index_vars_expr(k[3]) | index_vars_expr(k[4])
+    return out
+
+
 def corpus():
     out = []
     d = os.path.join(common.VERIF, "corpus", PID)
@@ -122,6 +158,11 @@ def gen_cases(tier, seed):
         st, c, k = gen_store(rng), gen_cond(rng), gen_kind(rng)
         if k[0] == "nop":
             c = ["bool", True]     # dagrt.language.Nop carries no condition
+        # numpy gives `a[None]` (an unset index variable) a meaning of its own (newaxis): keep
+        # every variable used inside a subscript defined
+        for v in index_vars(k) | index_vars_expr(c):
+            if v not in st and v not in kind_loopvars(k):
+                st[v] = ["int", rng.randint(0, 1)]
         # Assign.__init__ flattens its right-hand side: read the statement back
         real = lang.kind_to_real(k, cond=c, sid="s0")
         k = lang.kind_from_real(real)
